@@ -101,6 +101,16 @@ def run(res, tier, seed, shard, nshards):
         except Exception as ex:
             hashes.append(("unhashable", type(ex).__name__))
         maps.append(contains_map(e))
+    # between the two constructions: thousands of unrelated distinct queries are built and combined (whatever the
+    # query layer remembers about operands it has seen must not make old and new queries meet)
+    from tinyflux import FieldQuery, TagQuery
+
+    churn = []
+    for i in range(3000 if tier == "quick" else 12000):
+        a_ = FieldQuery().churn == i
+        b_ = TagQuery().churn == f"v{i}"
+        churn.append((a_ & b_) | ~a_)
+    res.counters["queries_built_between_the_two_constructions"] = 3 * len(churn)
     # a second, separately constructed object per expression (so that x == x' is object independent)
     qs2 = [qast.to_real(e) for e in E]
     n = len(E)
